@@ -50,6 +50,7 @@ EXPLANATION = (
     "(W7) A strict .encode() in a response sink before the first write is either applied to a provably surrogate-free string (flow-sensitive provenance) or caught on every call chain up to the asyncio callback. "
     "(W8) The request-line parsers raise only ValueError: constant subscripts are dominated by an existence test (or the protocol catches everything around the parser). "
     "(W9) = C15.X5: the transport facade's close() reaches the TCP close on every normal path."
+    " (W11) = C15.X6: the package's own log processors cannot raise, so a log call before the write cannot lose the response."
 )
 
 HEADER_RE = re.compile(r"^[1-6][0-9] [^\r\n]*\r\n$")
@@ -803,6 +804,10 @@ def run(chk: Check) -> None:
     from .common import reuse
 
     reuse(chk, rule_x5, "W9", "after the response the connection is really closed on both backends: close() of the transport facade reaches the TCP close on every normal path (= C15.X5)", ("X5",))
+    from .c15 import rule_x6
+    from .common import reuse as _reuse11
+
+    _reuse11(chk, rule_x6, "W11", "log calls sit before the response is written (sink, timeout reply): the package's own structlog processors are total (= C15.X6), so logging cannot turn a request into a connection without response", ("X6",))
     chk.trusted = [
         "CPython ast parser",
         "engine CFG / inliner / BoolFacts path pruning / abstract string domain",
